@@ -22,7 +22,7 @@ def row_loop(E):
     for H, L in E.loops.items():
         if L.opaque or not L.iter or L.iter[0] != 'range':
             continue
-        if 'DenseMatrix::rows' in X.canon(L.iter[2]) and any(isinstance(v, Ptr) for v in L.carried.values()) and any(isinstance(v, Vec) for v in L.carried.values()):
+        if norm(L.iter[1]) == ('k', 0) and common.is_call_to(L.iter[2], 'DenseMatrix::rows') and any(isinstance(v, Ptr) for v in L.carried.values()) and any(isinstance(v, Vec) for v in L.carried.values()):
             return H
     return None
 
@@ -357,9 +357,21 @@ def check_data_ptr_off(E, H, probs):
     return p, ini
 
 
+def whole_array_enumeration(g, it):
+    """`it` is enumerate(iter(x)) / enumerate(into_iter(x)) over a whole local array x (no slicing, take, skip or step)."""
+    mm = m(('call~', 'Iterator::enumerate', (('call~', ('slice::iter', 'iter::into_iter', 'IntoIterator::into_iter'), ('$x',)),)), norm(it))
+    if mm is None:
+        return False
+    x = mm['$x']
+    if x[0] != 'v':
+        return False
+    ty = g.local_ty(x[1]) if hasattr(g, 'local_ty') else None
+    return ty is None or ty.startswith('[')
+
+
 def epilogue_position_semantics(db, ctx):
     """The scalar epilogues attribute to element t of the spilled array the column t."""
-    ctx.rule('R7.2e', 'scalar epilogue: the column of a candidate is its position in the spilled index array; the winner is chosen by comparing cell values (R7.4)')
+    ctx.rule('R7.2e', 'scalar epilogue: the column of a candidate is its position in the spilled index array; every column 0..C is a candidate; the winner is chosen by comparing cell values (R7.4)')
     n = 0
     for path in (AVX2 + 'argmax_f32_avx2', AVX2 + 'argmax_u8_avx2', SSE2 + 'argmax_sse2'):
         f = db.fn(path)
@@ -375,10 +387,16 @@ def epilogue_position_semantics(db, ctx):
                     # (row as usize, col) with (col, row) = enumerate element, or closure param tuple (col, row)
                     b0 = m(('fld', ('elem', '$s', '$L'), '1'), a0)
                     b1 = m(('fld', ('elem', '$s', '$L'), '0'), a1)
-                    if b0 is not None and b1 is not None and b0 == b1 and 'enumerate' in X.canon(b0['$s']):
+                    if b0 is not None and b1 is not None and b0 == b1 and whole_array_enumeration(g, b0['$s']):
                         ok = True
                     if m(('fld', ('p', 2), '1'), a0) is not None and m(('fld', ('p', 2), '0'), a1) is not None:
-                        ok = True
+                        # closure (col, row) -> coordinates: its parent must map it over the whole spilled array
+                        for pbi, pt in f.calls():
+                            if (f.callee_short(pt) or '').endswith('Iterator::max_by_key'):
+                                recv = norm(X.Rec(f).operand(pt['args'][0]))
+                                mm = m(('call~', 'Iterator::map', ('$it', '_')), recv)
+                                if mm is not None and whole_array_enumeration(f, mm['$it']):
+                                    ok = True
                     # sse2: best_row / best_col assigned from (row = output[col], col)
                 if c.endswith('::index') and 'MatrixCoordinates' in (t.get('callee_full') or t.get('resolved_full') or ''):
                     cmp_cells = True
@@ -394,13 +412,18 @@ def epilogue_position_semantics(db, ctx):
                             e = norm(R.rvalue(st['rv']))
                             b = m(('idx', ('call~', '::index', ('$data', ('idx', '$out', '$col'))), '$col'), e)
                             if b is not None:
-                                ok = True
-                                cmp_cells = True
+                                col = b['$col']
+                                # every column 0..C is visited: col ranges over exactly 0..C::USIZE
+                                if col[0] == 'elem' and col[1][0] == 'agg' and len(col[1][2]) == 2 and norm(col[1][2][0]) == ('k', 0) and common.is_usize_const(col[1][2][1]):
+                                    ok = True
+                                    cmp_cells = True
+                                else:
+                                    short_range = X.show(col, 80)
         if ok and cmp_cells:
             n += 1
             ctx.ok('R7.2e', f, 'candidate (row = x[t], col = t); winner chosen by comparing data[pos]')
         else:
-            ctx.fail('R7.2e', f, 'scalar epilogue', f'cannot match the epilogue to (row = spilled[t], col = t) with a comparison of cell values (position={ok}, compares cells={cmp_cells})')
+            ctx.fail('R7.2e', f, 'scalar epilogue', f'cannot match the epilogue to (row = spilled[t], col = t) over *every* column t in 0..C with a comparison of cell values (position/coverage={ok}, compares cells={cmp_cells})')
     ctx.floor('R7.2e', n, 3, 'argmax epilogues')
 
 
@@ -463,7 +486,7 @@ def r75(db, ctx):
         b = m(('call~', 'MatrixCoordinates::new', (('fld', ('elem', ('call~', 'enumerate', (('call~', 'DenseMatrix::iter', ('$mx',)),)), '$L'), '0'), ('elem', ('agg', '_', (('k', 0), '$C')), '$Lc'))), v)
         rels = G.relations(f, R, bi)
         g = [r for r in rels if r[0] in ('ge', 'gt', 'le', 'lt')]
-        if b is not None and 'USIZE' in X.canon(b['$C']) and 'StripedScores::matrix' in X.canon(b['$mx']) and g:
+        if b is not None and common.is_usize_const(b['$C']) and common.is_call_to(b['$mx'], 'StripedScores::matrix') and g:
             r = g[-1]
             lhs, rhs, rel = norm(r[1]), norm(r[2]), r[0]
             if rhs[0] == 'idx':
